@@ -336,7 +336,9 @@ def main(argv=None):
             for s in range(ns):
                 tasks.append((pid, i, s, ns, 0, seed, tier, tuple(open_sigs)))
         else:
-            total = args.cases or (law.quick if tier == "quick" else law.thorough)
+            mult = float(os.environ.get("VF_BUDGET_MULT", "4"))
+            total = args.cases or int(
+                (law.quick if tier == "quick" else law.thorough) * mult)
             if total <= 0:
                 continue
             ns = max(1, min(args.procs, law.max_shards, total // 10 or 1))
